@@ -463,6 +463,19 @@ func (m *Model) fill(o *Occ, mt *d.DescriptorProto, path, accessPrefix, embedPtr
 		if f.OneofIndex != nil && l.Ptr {
 			// std time/duration inside a oneof wrapper are pointers
 		}
+		// schema_types: the Terraform type of this occurrence (path first, then Message.Field) replaces the
+		// default one, type constructor included (modelled for singular time fields)
+		if ov, ok := m.Cfg.SchemaTypes[fpath]; ok && l.Class == CTime && !rep {
+			ll := *l
+			o2 := ov
+			ll.TFVal, ll.TFType = ov.ValueType, typeExpr(&o2)
+			l = &ll
+		} else if ov, ok := m.Cfg.SchemaTypes[key]; ok && l.Class == CTime && !rep {
+			ll := *l
+			o2 := ov
+			ll.TFVal, ll.TFType = ov.ValueType, typeExpr(&o2)
+			l = &ll
+		}
 		s.Leaf = l
 		if rep {
 			s.Kind = SList
